@@ -2,7 +2,7 @@
    Property theorems only; proofs live in Proofs/InputsP.v, Proofs/AcceptsP.v, Proofs/DefaultsP.v. *)
 From Coq Require Import List String Ascii ZArith Bool Lia.
 From AC Require Import Base.Json Base.Strs Gql.InSchema Gql.InCoerce Model.Names Model.Defaults Model.Inputs
-  Py.PyEval Proofs.InputsP Proofs.FreshP Proofs.AcceptsP Proofs.DefaultsP Proofs.ValidateP Proofs.ByNameP Proofs.ReshapeP.
+  Py.PyEval Proofs.InputsP Proofs.FreshP Proofs.AcceptsP Proofs.DefaultsP Proofs.ValidateP Proofs.ByNameP Proofs.ReshapeP Proofs.ChainP Proofs.ConverseP.
 Import ListNotations.
 Local Open Scope string_scope.
 
@@ -410,6 +410,55 @@ Proof.
 Qed.
 Print Assumptions C06_default_roundtrip_original_literal.
 
+(* ================= default chains through object defaults of omitted fields ================= *)
+(* Guard on the schema (boolean): every schema default is of a covered shape — scalars, enums, null, lists, objects
+   that may omit ANY defaulted or nullable field — and already has the shape of its type.  Fuel accounting is
+   explicit: one unit of the specification's fuel per nesting level costs at most two on the Python side
+   (validate -> default factory -> model_validate), hence 2n < k. *)
+Theorem C06_default_roundtrip_chain : forall s cs snake, schema_ok snake s = true -> defaults_good s = true ->
+  forall fs f lit n cv k,
+  emitted_default s f = Some lit -> good_default_c s lit (i_type f) = true ->
+  coerced_default n s (i_type f) lit = Some cv -> 2 * n < k ->
+  exists b v jd, default_body (rhs_default (p_value (gen_field s cs snake fs f))) = Some b /\
+                 eval k (env_of s cs snake) b = Ok v /\ dump v = Some jd /\
+                 strip_nulls jd = strip_nulls (json_of_cvalue cv).
+Proof.
+  intros s cs snake OK DG. apply (default_roundtrip_chain s cs snake OK (defaults_good_spec s DG)).
+Qed.
+Print Assumptions C06_default_roundtrip_chain.
+
+(* model_validate of a literal whose omitted fields chain through object defaults *)
+Theorem C06_validate_roundtrip_chain : forall s cs snake, schema_ok snake s = true -> defaults_good s = true ->
+  forall n lit t nb cv k, 2 * n <= k -> good_value_c s lit t = true -> (nb = false -> lit <> CNull) ->
+  coerced_default n s t lit = Some cv ->
+  exists v jd, validate k (env_of s cs snake) (fst (parse_input_field_type s cs t nb)) (json_of_cvalue lit) = Ok v /\
+               dump v = Some jd /\ strip_nulls jd = strip_nulls (json_of_cvalue cv).
+Proof.
+  intros s cs snake OK DG n. apply (proj1 (chain_roundtrip s cs snake OK (defaults_good_spec s DG) n)).
+Qed.
+Print Assumptions C06_validate_roundtrip_chain.
+
+Definition SCH : schema :=
+  [("Kind", DEnum ["A"; "class"]);
+   ("C", DInput [{| i_name := "x"; i_type := TNamed "Int"; i_default := None |};
+                 {| i_name := "k"; i_type := TNamed "Kind"; i_default := Some (CEnum "class") |}]);
+   ("B", DInput [{| i_name := "c"; i_type := TNamed "C"; i_default := Some (CObj [("x", CInt 1)]) |};
+                 {| i_name := "y"; i_type := TNonNull (TNamed "Int"); i_default := Some (CInt 2) |};
+                 {| i_name := "cs"; i_type := TList (TNonNull (TNamed "C")); i_default := Some (CList [CObj []]) |}]);
+   ("A", DInput [{| i_name := "b"; i_type := TNamed "B"; i_default := Some (CObj []) |}])].
+Example C06_chain_hypotheses_satisfiable :
+  schema_ok true SCH = true /\ defaults_good SCH = true /\
+  good_default_c SCH (CObj []) (TNamed "B") = true /\ good_default_w SCH (CObj []) (TNamed "B") = false /\
+  coerced_default 4 SCH (TNamed "B") (CObj []) =
+    Some (CObj [("c", CObj [("x", CInt 1); ("k", CEnum "class")]); ("y", CInt 2);
+                ("cs", CList [CObj [("k", CEnum "class")]])]) /\
+  match eval 9 (env_of SCH [] true) (const_value_node "B" (CObj []) true false) with
+  | Ok v => option_map strip_nulls (dump v)
+  | Err _ => None
+  end = Some (JObj [("c", JObj [("x", JInt 1); ("k", JStr "class")]); ("y", JInt 2);
+                    ("cs", JArr [JObj [("k", JStr "class")]])]).
+Proof. vm_compute. repeat split; reflexivity. Qed.
+
 (* ================= non-vacuity ================= *)
 Definition SX : schema :=
   [("Kind", DEnum ["A"; "B"; "class"]);
@@ -455,3 +504,44 @@ Example C06_good_default_w_witnesses :
   strip_nulls (JObj [("k", JStr "B"); ("n", JInt 3); ("s", JNull)]) = JObj [("k", JStr "B"); ("n", JInt 3)].
 Proof. vm_compute. auto. Qed.
 
+(* ================= the "refuses" half: accepted by the model => accepted by the schema ================= *)
+(* On values in canonical form (canon: leaves of the JSON kind of their type, Int in 32 bits, only known keys,
+   no null for a non-null custom scalar — exactly the places where pydantic's lax mode / Any / extra=ignore are
+   more liberal than GraphQL, see C06_converse_refuted) a value the generated model accepts is accepted by the
+   schema's coercion at some fuel.  Hypotheses: schema_ok and "every schema default is a valid literal" (schema
+   validity).  Contrapositive: the model refuses null at non-null positions, missing required fields, unknown enum
+   values and list/object/scalar shape mismatches at least as strictly as the schema. *)
+Theorem C06_input_accepts_only : forall s cs snake, schema_ok snake s = true ->
+  (forall nm fs f d, kind_of s nm = KInput fs -> In f fs -> i_default f = Some d ->
+     exists m cv, coerced_default m s (i_type f) d = Some cv) ->
+  forall n t nb j, canon s j t = true ->
+  accepts n (env_of s cs snake) (fst (parse_input_field_type s cs t nb)) j = true ->
+  exists m cv, coerce_input m s t j = Some cv.
+Proof. exact accepts_sound. Qed.
+Print Assumptions C06_input_accepts_only.
+
+Theorem C06_refuses_what_the_schema_refuses : forall s cs snake, schema_ok snake s = true ->
+  (forall nm fs f d, kind_of s nm = KInput fs -> In f fs -> i_default f = Some d ->
+     exists m cv, coerced_default m s (i_type f) d = Some cv) ->
+  forall n t nb j, canon s j t = true -> (forall m, coerce_input m s t j = None) ->
+  accepts n (env_of s cs snake) (fst (parse_input_field_type s cs t nb)) j = false.
+Proof.
+  intros s cs snake OK VD n t nb j Cn R. apply not_true_iff_false. intro A.
+  destruct (accepts_sound s cs snake OK VD n t nb j Cn A) as [m [cv H]]. rewrite R in H. discriminate.
+Qed.
+Print Assumptions C06_refuses_what_the_schema_refuses.
+
+Theorem C06_coerce_input_mono : forall s n m t j cv, n <= m ->
+  coerce_input n s t j = Some cv -> coerce_input m s t j = Some cv.
+Proof. exact coerce_input_mono. Qed.
+Print Assumptions C06_coerce_input_mono.
+
+Example C06_canon_examples :
+  canon SX JX (TNonNull (TNamed "In")) = true /\
+  canon SX (JObj [("class", JArr [JObj [("fooBar", JStr "1")]])]) (TNonNull (TNamed "In")) = false /\
+  canon SX (JObj [("class", JNull)]) (TNonNull (TNamed "In")) = true /\
+  accepts 6 (env_of SX [] true) (fst (parse_input_field_type SX [] (TNonNull (TNamed "In")) true))
+          (JObj [("class", JNull)]) = false /\
+  accepts 6 (env_of SX [] true) (fst (parse_input_field_type SX [] (TNonNull (TNamed "In")) true))
+          (JObj [("class", JArr [JObj [("fooBar", JInt 1); ("k", JStr "NOPE")]])]) = false.
+Proof. vm_compute. auto. Qed.
